@@ -236,6 +236,7 @@ def run_group(gs):
                 solvers[run] = solver
             solver.lin_fault = make_lin_fault(rs.get("lin_fault"))
             solver._wellposed = bool(rs.get("wellposed", False))
+            solver._start_undef = bool(rs.get("fault") and rs["fault"][0] == "atstart")
             try:
                 om = rs.get("omit_start")      # "both" | "x" | "y": the start vectors the caller leaves out (defaults apply)
                 res = solver.solve(None if om in ("both", "x") else np.array(x0, copy=True),
